@@ -375,14 +375,19 @@ func vRunCase3(t *testing.T, c vCase) (msg string) {
 		if l.Sign() == 0 {
 			l.SetInt64(1)
 		}
-		e := vElementOf(p, l)
-		got, ok := vPointOf(e.Multiply(vScalarOf(t, k)))
 		want := vMulPt(k, p)
-		if !ok || !vSame(got, want) {
-			return "[" + c.A + "]([" + c.B + "]G) = " + got.String() + ", want " + want.String()
-		}
-		if !bytes.Equal(e.Encode(), vSec1(want, true)) {
-			return "Encode of the product differs from the oracle's SEC1 encoding"
+		for vi, sc := range vScalarVariants(t, k) {
+			e := vElementOf(p, l)
+			got, ok := vPointOf(e.Multiply(sc))
+			if !ok || !vSame(got, want) {
+				return "[" + c.A + "]([" + c.B + "]G) = " + got.String() + ", want " + want.String() + " (scalar constructor variant " + itoa(vi) + ")"
+			}
+			if !bytes.Equal(e.Encode(), vSec1(want, true)) {
+				return "Encode of the product differs from the oracle's SEC1 encoding"
+			}
+			if vScalarVal(sc).Cmp(k) != 0 {
+				return "Multiply changed its scalar argument " + c.A
+			}
 		}
 	case "multiply-nil":
 		e := vElementOf(vG(), big.NewInt(3))
